@@ -18,9 +18,10 @@ BASES = ["a", "b", "A", "(a b)", "(a | b)", "(a b?)"]
 OPS = ["", "?", "*", "+"]
 SEPS = ["", "[c]", "[C]"]
 TERMS = 'terminals\na: "a";\nb: "b";\nc: ",";\n'
-ARULE = "A: a b | b;\nC: c;\n"
+ARULE = "A: a b | b;\nC: c;\nN: b | EMPTY;\n"
 LEX = {"a": ("s", "a"), "b": ("s", "b"), "c": ("s", ","), "z": ("s", "z")}
-APRODS = [("A", ("a", "b")), ("A", ("b",)), ("C", ("c",))]
+APRODS = [("A", ("a", "b")), ("A", ("b",)), ("C", ("c",)), ("N", ("b",)),
+          ("N", ())]
 
 
 def all_items():
@@ -29,6 +30,9 @@ def all_items():
         for op in OPS:
             for sep in (SEPS if op in ("*", "+") else [""]):
                 out.append((base, op, sep))
+    # a nullable element: only with a separator (N+ alone is cyclic)
+    out += [("N", "", ""), ("N", "?", ""), ("N", "+", "[c]"), ("N", "*", "[c]"),
+            ("N", "+", "[C]")]
     return out
 
 
@@ -187,6 +191,50 @@ def compare(judge, st, mon, cfgbase, key, sug, exp, inputs, ref=None,
                                      "options": {"ws": ""}, "input": s})
 
 
+def doc_eval(n):
+    """what the docs say the result is, computed from the derivation tree:
+    x+ / x* -> the list of the matched elements' values (separators dropped),
+    x? -> the value or None, anything else -> parglare's default (single
+    sub-result unpacked, otherwise the list of sub-results)"""
+    if n.is_term():
+        return n.value
+    kids = [doc_eval(c) for c in n]
+    an = n.symbol.action_name
+    if an in ("collect", "collect_sep"):
+        if len(kids) == 1:
+            return [kids[0]]
+        return list(kids[0]) + [kids[-1]]
+    if an == "optional":
+        return kids[0] if kids else None
+    return kids[0] if len(kids) == 1 else kids
+
+
+def check_documented_values(judge, st, mon, key, sug, inputs):
+    """independent of the built-in actions: on-the-fly result of the sugared
+    grammar vs the documented meaning evaluated over its own parse tree"""
+    a = build_or_name("lr", sug, mon, (key, "val", 0), {})
+    b = build_or_name("lr", sug, mon, (key, "val", 1), {"build_tree": True})
+    if isinstance(a, str) or isinstance(b, str):
+        return
+    for s in inputs:
+        o = parse(a, s, mon)
+        if o.kind != "ok":
+            continue
+        t = parse(b, s, mon)
+        if t.kind != "ok":
+            continue
+        st["documented_values"] += 1
+        want = norm(doc_eval(t.value))
+        got = norm(o.value)
+        if got != want:
+            judge.deviation("SUGAR-VALUES", "values", key, s,
+                            "result differs from the documented meaning of "
+                            "the repetition / optional operators",
+                            {"got": str(got)[:200], "want": str(want)[:200]},
+                            {"grammar": sug, "parser": "lr",
+                             "options": {"ws": ""}, "input": s})
+
+
 def items_unit(u):
     mon = Monitor()
     judge = Judge(PROP, KNOWN)
@@ -206,6 +254,7 @@ def items_unit(u):
         ref = CharRef(prods, "S", LEX, ws="")
         compare(judge, st, mon, f"items{u['n']}", head.strip(), sug, exp,
                 inputs, ref)
+        check_documented_values(judge, st, mon, head.strip(), sug, inputs)
         st["shapes"] += 1
         if not samples:
             samples.append({"sugared": head.strip(), "expansion": exp,
@@ -411,6 +460,8 @@ def evidence(total, tier, seed, complete):
         "domain": [{k: str(v) for k, v in row.items()}
                    for row in plan(tier, seed)],
         "shapes": total.get("shapes", 0),
+        "results_compared_with_documented_values":
+            total.get("documented_values", 0),
     }
     return cov, ["reference: pgmc/ref/sugar.py mirrors the 'Syntax "
                  "equivalence' notes incl. helper sharing and {nops}",
